@@ -149,7 +149,7 @@ impl Prop for Order {
         Ok(PairCase { a, b, oa, ob })
     }
     fn check(c: &PairCase, cx: &mut Cx) -> Verdict {
-        if !c.a.valid() || !c.b.valid() || c.oa.abs() > 86_399 || c.ob.abs() > 86_399 {
+        if !c.a.valid() || !c.b.valid() || c.oa.unsigned_abs() > 86_399 || c.ob.unsigned_abs() > 86_399 {
             return Verdict::Skip("malformed case");
         }
         let edge = c.a.day < cal::MIN_DAY + 1 || c.a.day > cal::MAX_DAY - 1 || c.b.day < cal::MIN_DAY + 1 || c.b.day > cal::MAX_DAY - 1;
